@@ -37,6 +37,14 @@ CLAIMED = {
              "spec validated against installed GNU ld 2.40 via ASSERT scripts (XOR not validatable: ld 2.40 lexer lacks ^); tie through verif_hooks::linker_script and the wild binary.",
         technique="Coq proof by structural induction (N model vs Z specification) + table comparison + model/implementation correspondence by vm_compute",
         design_ref="DESIGN.md §3 C16"),
+    "C17": dict(
+        text="S2. Theorem exit0_implies_written over the model's whole fault space ({fork,no-fork} x 8 phase boundaries x {error,panic,abort,SIGKILL,SIGSEGV}, enumerated by vm_compute and lifted "
+             "with a completeness lemma for the enumeration), plus parent_exit_zero_iff for EVERY possible wait status of the child. Pinned tree refuted (witness: worker SIGKILLed before writing, "
+             "parent exits 0) and repaired by a fix: commit. Runtime (kernel wait-status encoding, Rust panic exit code, pipe semantics) is validated by replaying the entire fault space on the real binary.",
+        note="Trusted: Coq kernel + vm_compute, no axioms; hand model of subprocess.rs/main.rs exit paths; Linux wait-status encoding as definitions; hooks = WILD_VERIF_POINT fault points; "
+             "strace syscall injection. Not modelled: faults at arbitrary instructions between phase boundaries (covered only by strace samples), allocation failure other than abort.",
+        technique="Coq proof over an exhaustively enumerated finite fault model + trace validation of every model run against the real binary",
+        design_ref="DESIGN.md §3 C17"),
 }
 
 PENDING_REASON = "not claimed yet: model/theorems for this property are not built in this revision (see DESIGN.md §8 construction order)"
